@@ -266,3 +266,53 @@ Lemma bid_complete_not_zero b : bid_is_complete b = true -> bid_is_zero b = fals
 Proof.
   unfold bid_is_complete, bid_is_zero. destruct (N.eqb (b_hash b) 0); simpl; [discriminate|reflexivity].
 Qed.
+
+(* ------------------------------------------------------------------ *)
+(** * Masks against the signed power of a commit *)
+
+Lemma mask_le_signed chain h r want vals m sigs :
+  Forall (fun v => 0 <= val_power v) vals ->
+  (forall i val cs, nth i m false = true -> nth_error vals i = Some val -> nth_error sigs i = Some cs ->
+                    signs_block chain h r want val cs = true) ->
+  length sigs = length vals ->
+  mask_power vals m <= signed_power chain h r want vals sigs.
+Proof.
+  intros Hf; revert m sigs; induction Hf as [|v vs Hv Hvs IH]; intros m sigs H Hl; [destruct m; simpl; lia|].
+  destruct sigs as [|cs st]; [discriminate|]. injection Hl as Hl.
+  destruct m as [|x mt].
+  - rewrite mask_power_nil_r. apply (signed_power_bounds chain h r want (v :: vs) (cs :: st)). constructor; auto.
+  - cbn [mask_power signed_power].
+    assert (Ht : forall i val cs0, nth i mt false = true -> nth_error vs i = Some val -> nth_error st i = Some cs0 ->
+                                   signs_block chain h r want val cs0 = true)
+      by (intros i val cs0; exact (H (S i) val cs0)).
+    specialize (IH mt st Ht Hl).
+    destruct x.
+    + rewrite (H O v cs eq_refl eq_refl eq_refl). lia.
+    + destruct (signs_block chain h r want v cs); lia.
+Qed.
+
+(** the commit signature MakeCommit emits for a slot of voteSet.votes, when every vote has a
+    zero or complete block id *)
+Definition commitsig_of (m : blockid) (o : option vote) : commitsig :=
+  match o with
+  | None => cs_absent
+  | Some v => if bid_is_complete (v_bid v)
+              then if bid_eqb (v_bid v) m
+                   then {| cs_flag := FLAG_COMMIT; cs_addr := v_addr v; cs_time := v_time v; cs_sig := v_sig v |}
+                   else cs_absent
+              else {| cs_flag := FLAG_NIL; cs_addr := v_addr v; cs_time := v_time v; cs_sig := v_sig v |}
+  end.
+
+Lemma make_sigs_map m l :
+  (forall v, In (Some v) l -> bid_is_zero (v_bid v) = true \/ bid_is_complete (v_bid v) = true) ->
+  make_sigs m l = Some (map (commitsig_of m) l).
+Proof.
+  induction l as [|o t IH]; intros H; [reflexivity|].
+  cbn [make_sigs map]. rewrite IH by (intros v Hv; apply H; right; auto).
+  destruct o as [v|]; cbn [vote_commitsig commitsig_of]; [|reflexivity].
+  destruct (bid_is_complete (v_bid v)) eqn:Ec.
+  - cbn [cs_flag]. rewrite N.eqb_refl. cbn [andb].
+    destruct (bid_eqb (v_bid v) m); reflexivity.
+  - destruct (H v (or_introl eq_refl)) as [Hz|Hc]; [|congruence]. rewrite Hz. cbn [cs_flag].
+    change (N.eqb FLAG_NIL FLAG_COMMIT) with false. reflexivity.
+Qed.
